@@ -81,6 +81,29 @@ def _wedge_codes(fn):
     return out
 
 
+def _m_chg_exact(fn):
+    """the statement writing the `M  CHG` line is reached exactly for charge -4 and +4 (the conditions it depends on are evaluated for every charge,
+    whatever their spelling) and prints the atom number and that charge"""
+    from .astutil import reach_conditions, expand_locals, single_defs, enclosing_map
+    from .r_query import _ev, _Unknown
+    only = {k for k, v in single_defs(fn).items() if src(v) == 'a.charge'}
+    parents = enclosing_map(fn)
+    sites = [n for n in ast.walk(fn) if isinstance(n, ast.JoinedStr) and any(isinstance(v, ast.Constant) and 'M  CHG' in str(v.value) for v in n.values)]
+    if len(sites) != 1:
+        return False
+    text = src(expand_locals(sites[0], fn, only=only))
+    if 'M  CHG  1 {n:3d} {a.charge:3d}' not in text:
+        return False
+    conds = [expand_locals(c, fn, only=only) for c in reach_conditions(sites[0], fn, parents)]
+    conds = [c for c in conds if 'a.charge' in src(c)]
+    if not conds:
+        return False
+    try:
+        return {v for v in range(-4, 5) if all(_ev(c, {'a.charge': v}) for c in conds)} == {-4, 4}
+    except _Unknown:
+        return False
+
+
 def rule_v2000_books(ck, repo, R):
     ck.rule(R, 'V2000 code books are mutually inverse: atom-block charge codes for -3..3, M  CHG lines exactly for the charges the atom block cannot hold (+-4), '
                'M  ISO / M  RAD emission vs parsing, wedge codes 1 / 6; V3000 CHG= RAD= MASS= CFG=1/3 keys on both sides; radical code 2')
@@ -94,7 +117,7 @@ def rule_v2000_books(ck, repo, R):
     ck.decide(wm.get(4) == wm.get(-4) == wm.get(0), R, 'v2000:charge:+-4-code', (wm.get(4), wm.get(-4)), 'charges +-4 must use the neutral atom-block code and an M  CHG line', file=mod.relpath, line=line)
     mw = repo.func(f'{W}:MOLWrite._write_molecule')
     s = ast.get_source_segment(mod.source, mw.node)
-    ck.decide('if a.charge in (-4, 4)' in s and "M  CHG  1 {n:3d} {a.charge:3d}" in s, R, 'v2000:M-CHG', None, 'M  CHG is no longer written exactly for charges +-4', file=mw.file, line=mw.lineno)
+    ck.decide(_m_chg_exact(mw.node), R, 'v2000:M-CHG', None, 'M  CHG is no longer written exactly for charges +-4', file=mw.file, line=mw.lineno)
     ck.decide("M  ISO  1 {n:3d} {a.isotope:3d}" in s and 'if a.isotope' in s, R, 'v2000:M-ISO', None, 'M  ISO line no longer written for isotopes', file=mw.file, line=mw.lineno)
     ck.decide("M  RAD  1 {n:3d}   2" in s and 'if a.is_radical' in s, R, 'v2000:M-RAD', None, 'M  RAD line no longer written for radicals', file=mw.file, line=mw.lineno)
     ck.decide('charge_map[a.charge]' in s, R, 'v2000:charge-lookup', None, 'atom block no longer looks up charge_map[a.charge]', file=mw.file, line=mw.lineno)
